@@ -217,9 +217,24 @@ def pred_norm(ctx: Ctx) -> List[Ob]:
     """call_predicate also normalises control *classes* that are returned (SkipBranch, SelectBranch, StopTraversal without parentheses) into instances, as the user guide allows for returned and raised values alike"""
     obs: List[Ob] = []
     f = ctx.model.func("call_predicate")
-    ok = has("issubclass($r, IterationControl)", f.node) or has("isinstance($r, type)", f.node)
+    names = set()
+    for c in ast.walk(f.node):
+        if isinstance(c, ast.Call) and isinstance(c.func, ast.Name) and c.func.id == "issubclass" and len(c.args) == 2:
+            names |= {x.id for x in ast.walk(c.args[1]) if isinstance(x, ast.Name)}
+        if isinstance(c, ast.Compare) and len(c.ops) == 1 and isinstance(c.ops[0], ast.Is) and isinstance(c.comparators[0], ast.Name) and c.comparators[0].id[:1].isupper():
+            names.add(c.comparators[0].id)
+    controls = {"SkipBranch", "SelectBranch", "StopTraversal"}
+    if "IterationControl" in names or controls <= names:
+        ok = True
+    elif names & controls:
+        ok = False  # some control classes are normalised, others forgotten
+    elif has("isinstance($r, type)", f.node):
+        ok = True
+    else:
+        ok = False
+    missing = sorted(controls - names) if names & controls and "IterationControl" not in names else []
     obs.append(ctx.ob("PRED-NORM", ["C08"], f, "a returned control class is turned into an instance", None, ok,
-                      "" if ok else "`return SkipBranch` (the class) matches no isinstance() case of filter()/copy(): the verdict is silently ignored"))
+                      "" if ok else f"`return {missing[0] if missing else 'SkipBranch'}` (the class) matches no isinstance() case of filter()/copy(): the verdict is silently ignored"))
     return obs
 
 
